@@ -5,6 +5,7 @@ CONSTANTS
   VarLong = 3
   Padding = FALSE
   RelFpuOK = FALSE
+  SelfKinds = {}
   Labels = {"la", "lb"}
   MaxItems = 4
   Fills = {1, 125, 126}
